@@ -139,23 +139,26 @@ def layouts(tier, rng):
 
 
 def clone_needs_more(et, a, b, c, vres, nv):
-    """KNOWN_DEFECTS D3: would a member-wise copy need more joint memory than the source used?  Positions
-    are relative to the end of the object (8-aligned; stricter alignments are the business of D2)."""
+    """KNOWN_DEFECTS D3: would a member-wise copy need more joint memory than the source used, source and
+    copy lying in blocks with the same address residue modulo 16 (different residues are the business of
+    D2)?  The object itself is 8-aligned and its size a multiple of 8."""
     sz, al = ELEMS[et]
-    al = min(al, 8)
     up = lambda p, q: (p + q - 1) // q * q
     arrs = [(a, sz, al), (b, 1, 1), (c, sz, al)]
-    src = cp = 0
-    for (f, n), s, q in arrs:
-        allocates = not (f == F_ABSENT or (f == F_RANGE and n == 0))
-        if allocates:
-            src = up(src, q) + n * s
-        cp = up(cp, q) + (n * s if allocates else 0)     # the copy always allocates (possibly 0 bytes)
-    if vres > 0:
-        src = up(src, al) + vres * sz
-    if nv > 0:
-        cp = up(cp, al) + nv * sz
-    return cp > src
+    for r in (0, 8):
+        src = cp = r
+        for (f, n), s, q in arrs:
+            allocates = not (f == F_ABSENT or (f == F_RANGE and n == 0))
+            if allocates:
+                src = up(src, q) + n * s
+            cp = up(cp, q) + (n * s if allocates else 0)     # the copy always allocates (possibly 0 bytes)
+        if vres > 0:
+            src = up(src, al) + vres * sz
+        if nv > 0:
+            cp = up(cp, al) + nv * sz
+        if cp > src:
+            return True
+    return False
 
 
 def clone_ok(et, alloc, skew, layout=None):
